@@ -579,6 +579,88 @@ impl ClientToRelayMsg {
     }
 }
 
+/// Verification hooks, compiled only with `--cfg iroh_verif`: public entry points to the
+/// crate-private frame codec and a client connection without the network handshake.
+#[cfg(iroh_verif)]
+pub mod verif_hooks {
+    use super::*;
+
+    /// Calls [`RelayToClientMsg::from_bytes`].
+    #[allow(clippy::result_large_err)]
+    pub fn relay_to_client_from_bytes(
+        content: Bytes,
+        cache: &KeyCache,
+        protocol_version: ProtocolVersion,
+    ) -> Result<RelayToClientMsg, Error> {
+        RelayToClientMsg::from_bytes(content, cache, protocol_version)
+    }
+
+    /// Calls [`RelayToClientMsg::to_bytes`].
+    #[cfg(feature = "server")]
+    pub fn relay_to_client_to_bytes(msg: &RelayToClientMsg) -> BytesMut {
+        msg.to_bytes()
+    }
+
+    /// Calls [`RelayToClientMsg::encoded_len`].
+    #[cfg(feature = "server")]
+    pub fn relay_to_client_encoded_len(msg: &RelayToClientMsg) -> usize {
+        msg.encoded_len()
+    }
+
+    /// Calls [`ClientToRelayMsg::from_bytes`].
+    #[cfg(feature = "server")]
+    #[allow(clippy::result_large_err)]
+    pub fn client_to_relay_from_bytes(
+        content: Bytes,
+        cache: &KeyCache,
+    ) -> Result<ClientToRelayMsg, Error> {
+        ClientToRelayMsg::from_bytes(content, cache)
+    }
+
+    /// Calls [`ClientToRelayMsg::to_bytes`].
+    pub fn client_to_relay_to_bytes(msg: &ClientToRelayMsg) -> BytesMut {
+        msg.to_bytes()
+    }
+
+    /// Calls [`ClientToRelayMsg::encoded_len`].
+    pub fn client_to_relay_encoded_len(msg: &ClientToRelayMsg) -> usize {
+        msg.encoded_len()
+    }
+
+    /// Wraps an already connected TCP stream into the client side relay connection
+    /// (the websocket framing is taken over without an HTTP upgrade or relay handshake).
+    ///
+    /// The returned value is the crate's `client::conn::Conn`: its sink runs the
+    /// client's size checks before a frame is written, its stream decodes received frames.
+    #[cfg(not(wasm_browser))]
+    pub fn client_conn(
+        io: tokio::net::TcpStream,
+        protocol_version: ProtocolVersion,
+    ) -> impl n0_future::Sink<ClientToRelayMsg, Error = crate::client::SendError>
+    + n0_future::Stream<Item = Result<RelayToClientMsg, crate::client::RecvError>>
+    + Unpin
+    + Send {
+        use crate::{
+            client::{
+                conn::Conn,
+                streams::{MaybeTlsStream, ProxyStream},
+            },
+            protos::streams::WsBytesFramed,
+        };
+        Conn {
+            conn: WsBytesFramed {
+                io: tokio_websockets::ClientBuilder::new()
+                    .limits(
+                        tokio_websockets::Limits::default().max_payload_len(Some(MAX_FRAME_SIZE)),
+                    )
+                    .take_over(MaybeTlsStream::Raw(ProxyStream::Raw(io))),
+            },
+            key_cache: KeyCache::new(0),
+            protocol_version,
+        }
+    }
+}
+
 #[cfg(test)]
 #[cfg(feature = "server")]
 mod tests {
